@@ -63,6 +63,13 @@ def main_dispatch(args=None):
     cmd = args[0]
     args = args[1:]
 
+    # The commands read the configuration of the entry point they alias
+    from nbdime.args import ConfigBackedParser
+    ConfigBackedParser.default_entrypoint = {
+        "show": "nbshow", "diff": "nbdiff", "merge": "nbmerge",
+        "diff-web": "nbdiff-web", "merge-web": "nbmerge-web",
+        "server": "server"}.get(cmd)
+
     if cmd == "show":
         from nbdime.nbshowapp import main
     elif cmd == "diff":
